@@ -25,8 +25,13 @@ def lin(e, env=None):
     env = env or {}
     e = strip(e)
     k = e.get("k")
-    while k == "Cast" or (k == "MethodCall" and e.get("method") in ("into", "try_into", "unwrap", "clone") and not e.get("args")):
-        e = strip(e["e"] if k == "Cast" else e["recv"])
+    while True:
+        if k == "Cast" or (k == "MethodCall" and e.get("method") in ("into", "try_into", "unwrap", "expect", "clone") and (not e.get("args") or e.get("method") == "expect")):
+            e = strip(e["e"] if k == "Cast" else e["recv"])
+        elif k == "Call" and len(e.get("args", [])) == 1 and (declared(e) or "").endswith(("TryFrom::try_from", "From::from")):
+            e = strip(e["args"][0])     # value-preserving integer conversion (a failing try_from never yields a value)
+        else:
+            break
         k = e.get("k")
     v = tir.lit_int(e)
     if v is not None and k in ("Lit", "Unary"):
